@@ -342,7 +342,9 @@ class FixedNoiseGaussianLikelihood(_GaussianLikelihoodBase):
         res = self.noise_covar(*params, shape=shape, **kwargs)
 
         if self.second_noise_covar is not None:
-            res = res + self.second_noise_covar(*params, shape=shape, **kwargs)
+            # the call-time `noise` replaces the *fixed* noise only; the learned noise is still added
+            second_kwargs = {k: v for k, v in kwargs.items() if k != "noise"}
+            res = res + self.second_noise_covar(*params, shape=shape, **second_kwargs)
         elif isinstance(res, ZeroLinearOperator):
             warnings.warn(
                 "You have passed data through a FixedNoiseGaussianLikelihood that did not match the size "
